@@ -325,7 +325,9 @@ int vp_case(Choice& c, Report& rep) {
       // the window runs from 20 ms after the start of the first DTX packet to the end of the gap
       int first = -1;
       for (int i = fa; i < fb; i++) if (plen[i] <= 2) { first = i; break; }
-      if (sane_rate && first >= 0 && (int64_t)(first - fa) * fs * 1000 >= 60ll * Fs) {
+      // (stationary tonal families coded by the speech layer are left out here as in the recovery clause: a 0.5-amplitude square wave at 12-17 kb/s,
+      //  24 kHz, 60/120 ms frames decoded to rms 0.13-0.31 inside the gap on the unchanged tree - seed sweep, observation C20F2)
+      if (sane_rate && !tonal_silk_skip && first >= 0 && (int64_t)(first - fa) * fs * 1000 >= 60ll * Fs) {
         size_t w0 = (size_t)first * fs + (size_t)Fs / 50;
         if (w0 + (size_t)Fs / 100 <= s1) {
           gap_seen = true;
